@@ -132,6 +132,30 @@ def lp_show(lp):
     return ''.join(out).replace('this.', '', 1) if out and out[0] == 'this' and len(out) > 1 else ''.join(out)
 
 
+def norm_ite(cond, a, b):
+    """ite(cond, a, b) -> max/min forms when it is a clamp written with a comparison"""
+    if isinstance(cond, tuple) and cond[0] == 'not':
+        return norm_ite(cond[1], b, a)
+    if isinstance(cond, tuple) and cond[0] == 'cmp' and cond[1] in ('<', '<=', '>', '>='):
+        op, x, k = cond[1], cond[2], cond[3]
+        if is_const(x) and not is_const(k):
+            x, k = k, x
+            op = {'<': '>', '<=': '>=', '>': '<', '>=': '<='}[op]
+        if is_const(k):
+            kc = k
+            # ite(x < K, K', x)
+            if op in ('<', '<=') and b == x and is_const(a) and (a == kc or (op == '<' and a == kc) or (op == '<=' and a[1] in (kc[1], kc[1] + 1))):
+                return ('max', x, a)
+            if op in ('>', '>=') and b == x and is_const(a) and (a == kc or a[1] in (kc[1], kc[1] - 1)):
+                return ('min', x, a)
+            # ite(x >= K, x, K)
+            if op in ('>=', '>') and a == x and is_const(b) and (b == kc or b[1] in (kc[1], kc[1] + 1)):
+                return ('max', x, b)
+            if op in ('<=', '<') and a == x and is_const(b) and (b == kc or b[1] in (kc[1], kc[1] - 1)):
+                return ('min', x, b)
+    return ('ite', cond, a, b)
+
+
 class Val:
     __slots__ = ('term', 'iv', 'notes', 'struct')
 
@@ -208,6 +232,18 @@ class Path:
         if lp not in self.vec:
             self.vec[lp] = VecState()
         return self.vec[lp]
+
+
+def _op_eq(a, b):
+    if a[0] != b[0] or len(a) != len(b):
+        return False
+    for x, y in zip(a, b):
+        if isinstance(x, Val) and isinstance(y, Val):
+            if x.term != y.term:
+                return False
+        elif x != y:
+            return False
+    return True
 
 
 def iv_union(a, b):
@@ -378,15 +414,121 @@ class Symex:
                 qs = [q0]
             for q1 in qs:
                 for q, cv in self.eval(s['c'], q1, ctx):
+                    outs = {}
                     for branch, pol in ((s['t'], True), (s['e'], False)):
                         qq = self.assume(q.copy(), cv, pol)
                         if qq is None:
                             continue
                         if branch is None:
-                            res.append((qq, 'next'))
+                            outs[pol] = [(qq, 'next')]
                         else:
-                            res.extend(self.exec_stmt(branch, qq, ctx))
+                            outs[pol] = self.exec_stmt(branch, qq, ctx)
+                    merged = self._merge_branches(q, cv, outs)
+                    if merged is not None:
+                        res.append((merged, 'next'))
+                    else:
+                        for pol in (True, False):
+                            res.extend(outs.get(pol, []))
         return res
+
+    def _merge_branches(self, q, cv, outs):
+        """Join the two arms of an `if` into one path with ite-values when both arms are single
+        fall-through paths whose effects differ only in the values written (same locations, same
+        order).  This makes `if (c) x = a; else x = b;` and `x = c ? a : b;` indistinguishable."""
+        if True not in outs or False not in outs or len(outs[True]) != 1 or len(outs[False]) != 1:
+            return None
+        (pa, fa), (pb, fb) = outs[True][0], outs[False][0]
+        if fa != 'next' or fb != 'next':
+            return None
+        n0 = len(q.effects)
+        ea, eb = pa.effects[n0:], pb.effects[n0:]
+        if len(ea) != len(eb):
+            return None
+        cond = cv.term
+        m = q.copy()
+
+        def ite(va, vb):
+            if va is vb or (va is not None and vb is not None and va.term == vb.term):
+                return va
+            if va is None or vb is None:
+                return None
+            return Val(norm_ite(cond, va.term, vb.term), iv_union(va.iv, vb.iv), tuple(va.notes) + tuple(n for n in vb.notes if n not in va.notes))
+        new_eff = []
+        for x, y in zip(ea, eb):
+            if x[0] != y[0]:
+                return None
+            if x[0] == 'store' and x[1] == y[1] and x[2] == y[2] and x[4] == y[4]:
+                v = ite(x[3], y[3])
+                if v is None:
+                    return None
+                new_eff.append(('store', x[1], x[2], v, x[4], x[5]))
+            elif x[0] == 'write' and x[1] == y[1] and x[3] == y[3]:
+                v = ite(x[2], y[2])
+                if v is None:
+                    return None
+                new_eff.append(('write', x[1], v, x[3], x[4]))
+            elif x == y:
+                new_eff.append(x)
+            else:
+                return None
+        # vector states must have the same operation shapes
+        keys = set(pa.vec) | set(pb.vec)
+        for k in keys:
+            oa = pa.vec[k].ops if k in pa.vec else []
+            ob = pb.vec[k].ops if k in pb.vec else []
+            base = len(q.vec[k].ops) if k in q.vec else 0
+            if len(oa) != len(ob):
+                return None
+            vs = (pa.vec[k] if k in pa.vec else VecState()).copy()
+            for i in range(base, len(oa)):
+                a, b = oa[i], ob[i]
+                if a[0] != b[0]:
+                    return None
+                if a[0] == 'store' and a[1].term == b[1].term:
+                    v = ite(a[2], b[2])
+                    if v is None:
+                        return None
+                    vs.ops[i] = ('store', a[1], v, a[3])
+                elif a[0] in ('pop', 'clear') and a == b:
+                    pass
+                elif all((isinstance(u, Val) and isinstance(w, Val) and u.term == w.term) or u == w for u, w in zip(a, b)):
+                    pass
+                else:
+                    return None
+            if len(pa.vec.get(k, VecState()).pushed) != len(pb.vec.get(k, VecState()).pushed):
+                return None
+            m.vec[k] = vs
+        m.effects = list(q.effects) + new_eff
+        # heap
+        for lp in set(pa.heap) | set(pb.heap):
+            va, vb = pa.heap.get(lp), pb.heap.get(lp)
+            if va is None or vb is None:
+                pre = q.heap.get(lp)
+                if pre is None:
+                    pre = self._init_val(q, lp, None)
+                va = va if va is not None else pre
+                vb = vb if vb is not None else pre
+            v = ite(va, vb)
+            if v is None:
+                return None
+            m.heap[lp] = v
+        # locals
+        for d in set(pa.env) | set(pb.env):
+            va, vb = pa.env.get(d), pb.env.get(d)
+            if va is None or vb is None:
+                m.env[d] = va or vb
+                continue
+            if va.struct or vb.struct:
+                if va.term != vb.term:
+                    return None
+                m.env[d] = va
+                continue
+            m.env[d] = ite(va, vb)
+        m.notes = list(dict.fromkeys(pa.notes + pb.notes))
+        m.refine = dict(q.refine)
+        m.guards = list(q.guards)
+        m.ret = q.ret
+        return m
 
     def exec_switch(self, s, p, ctx):
         res = []
@@ -426,22 +568,48 @@ class Symex:
 
     # loops ------------------------------------------------------------
     def _loop_body(self, body, p, ctx, lctx):
-        """Execute a loop body once under loop context lctx ("may run 0..n times")."""
+        """Execute a loop body once under loop context lctx ("may run 0..n times").  The alternatives
+        through one iteration are merged into ONE continuation whose effects are the union of the
+        alternatives' effects (all of them may happen, in any iteration); paths that return from inside
+        the loop stay separate."""
         q = p.copy()
         q.loopctx = p.loopctx + (lctx,)
         before_heap = dict(q.heap)
+        n0 = len(q.effects)
         outs = self.exec_stmt(body, q, ctx) if body is not None else [(q, 'next')]
         res = []
+        cont = [qq for qq, flow in outs if flow in ('next', 'break', 'continue')]
         for qq, flow in outs:
-            qq.loopctx = p.loopctx
-            # scalar locations written inside the loop are loop-carried: havoc them
-            for lp, v in list(qq.heap.items()):
+            if flow not in ('next', 'break', 'continue'):
+                qq.loopctx = p.loopctx
+                res.append((qq, flow))
+        if cont:
+            m = cont[0]
+            for other in cont[1:]:
+                for ef in other.effects[n0:]:
+                    if not any(ef is x or ef == x for x in m.effects[n0:]):
+                        m.effects.append(ef)
+                for lp, v in other.heap.items():
+                    if before_heap.get(lp) is not v and m.heap.get(lp) is not v:
+                        m.heap[lp] = v
+                for k, vs in other.vec.items():
+                    if k not in m.vec:
+                        m.vec[k] = vs
+                    else:
+                        have = m.vec[k].ops
+                        for op in vs.ops:
+                            if not any(op is x for x in have) and not any(_op_eq(op, x) for x in have):
+                                have.append(op)
+                        m.vec[k].lost = m.vec[k].lost or vs.lost or len(cont) > 1 and bool(vs.ops)
+                m.notes = list(dict.fromkeys(m.notes + other.notes))
+            m.guards = list(p.guards)
+            m.refine = dict(p.refine)
+            m.loopctx = p.loopctx
+            for lp, v in list(m.heap.items()):
                 if before_heap.get(lp) is not v:
-                    qq.heap[lp] = Val(('havoc', lp, lctx[0]), v.iv if v else None, (('loop-carried', lp_show(lp)),))
-                    qq.effects.append(('loopwrite', lp, v, lctx))
-            if flow in ('break', 'continue'):
-                flow = 'next'
-            res.append((qq, flow))
+                    m.heap[lp] = Val(('havoc', lp, lctx[0]), v.iv if v else None, (('loop-carried', lp_show(lp)),))
+                    m.effects.append(('loopwrite', lp, v, lctx))
+            res.append((m, 'next'))
         return res
 
     def exec_for(self, s, p, ctx):
@@ -1034,7 +1202,7 @@ class Symex:
                 # effect-free branches: merge into one value
                 if len(qa.effects) == len(q.effects) and len(qb.effects) == len(q.effects):
                     iv = iv_union(va.iv, vb.iv)
-                    term = ('ite', cv.term, va.term, vb.term)
+                    term = norm_ite(cv.term, va.term, vb.term)
                     notes = tuple(cv.notes) + tuple(va.notes) + tuple(vb.notes)
                     struct = None
                     if va.struct or vb.struct:
@@ -1239,6 +1407,8 @@ class Symex:
         if rec.startswith(('std::basic_string', 'std::__cxx11::basic_string')) and e['args']:
             if len(e['args']) == 1 or (len(e['args']) == 2 and 'allocator' in (e['args'][1].get('cty') or '')):
                 return self.eval(e['args'][0], p, ctx)
+        if not e.get('ctor_in_repo') and len(e['args']) == 1 and 'iterator' in rec.lower():
+            return self.eval(e['args'][0], p, ctx)
         if e.get('ctor_in_repo'):
             cands = self.facts.by_sig.get(e['ctor'], [])
             cands = [c for c in cands if c['tmpl'] in ('none', 'inst')]
